@@ -379,6 +379,69 @@ def gen_cases(rng: random.Random, tier: str):
         cl["files"][0]["messages"].append(("def", "CLASH_WITH_CORE", 80, False))
         emit(cl, "explicit-core-import")
 
+    # I. DIFFERENT files imported under the SAME relative spelling from different directories (arm/types.yaml and
+    #    hand/types.yaml both written `types.yaml`; a/common/defs.yaml and b/common/defs.yaml both `../common/defs.yaml`):
+    #    every one of them is read and registered, every conflict between them reported
+    spell = {"same-basename": ["root.yaml", "arm/arm.yaml", "hand/hand.yaml", "arm/types.yaml", "hand/types.yaml"],
+             "same-dotdot-path": ["root.yaml", "a/x/f.yaml", "b/y/g.yaml", "a/common/defs.yaml", "b/common/defs.yaml"]}
+    twin_conflicts = [None, "msg-id", "reserved-over-signal", "module-id", "host-id", "const-vs-struct", "msg-vs-alias",
+                      "module-range", "host-range", "msg-range"]
+    for sname, paths in spell.items():
+        for conf in twin_conflicts:
+            for icd in ((False, True) if conf in (None, "module-range", "host-range", "msg-id") else (False,)):
+                if conf in ("module-range", "host-range") and not icd:
+                    continue
+                cl = mk(5, [(0, 1), (0, 2), (1, 3), (2, 4)], icd=icd, paths=paths)
+                assert cl["files"][1]["imports"][0][1] == cl["files"][2]["imports"][0][1]     # the same spelling
+                fr = Fresh(rng)
+                filler(cl, fr, 0.7)
+                a, b = cl["files"][3], cl["files"][4]
+                a["structs"].append(fr.name("ARM_T"))
+                b["structs"].append(fr.name("HAND_T"))
+                a["messages"].append(("def", fr.name("ARM_M"), fr.msg_id(), False))
+                b["messages"].append(("def", fr.name("HAND_M"), fr.msg_id(), True))
+                if conf == "msg-id":
+                    i = fr.msg_id()
+                    a["messages"].append(("def", fr.name("A"), i, False))
+                    b["messages"].append(("def", fr.name("B"), i, True))
+                elif conf == "reserved-over-signal":
+                    i = fr.msg_id(6) + 2
+                    a["messages"].append(("def", fr.name("SIG"), i, True))
+                    b["messages"].append(("res", [("range", i - 2, i + 1, rng.choice(["dash", "to"]))]))
+                elif conf == "module-id":
+                    v = fr.mod_id()
+                    a["modules"].append((fr.name("MA"), v))
+                    b["modules"].append((fr.name("MB"), v))
+                elif conf == "host-id":
+                    v = fr.host_id()
+                    a["hosts"].append((fr.name("HA"), v))
+                    b["hosts"].append((fr.name("HB"), v))
+                elif conf == "const-vs-struct":
+                    nm_ = fr.name("BOTH")
+                    a["constants"].append((nm_, 3))
+                    b["structs"].append(nm_)
+                elif conf == "msg-vs-alias":
+                    nm_ = fr.name("BOTH")
+                    a["aliases"].append((nm_, "int32"))
+                    b["messages"].append(("def", nm_, fr.msg_id(), False))
+                elif conf == "module-range":
+                    b["modules"].append((fr.name("MB"), 150))
+                elif conf == "host-range":
+                    b["hosts"].append((fr.name("HB"), 40000))
+                elif conf == "msg-range":
+                    b["messages"].append(("def", fr.name("B"), 10001, True))
+                emit(cl, "same-spelling-different-files")
+    # three levels: the twin files are themselves imported by files with equal spellings
+    cl = mk(6, [], paths=["root.yaml", "l/mid.yaml", "r/mid.yaml", "l/leaf.yaml", "r/leaf.yaml", "shared.yaml"])
+    cl["files"][0]["imports"] = [(1, "l/mid.yaml"), (2, "r/mid.yaml")]
+    cl["files"][1]["imports"] = [(3, "leaf.yaml"), (5, "../shared.yaml")]
+    cl["files"][2]["imports"] = [(4, "leaf.yaml"), (5, "../shared.yaml")]
+    fr = Fresh(rng)
+    filler(cl, fr)
+    for k in (3, 4, 5):
+        cl["files"][k]["messages"].append(("def", fr.name("LEAF"), fr.msg_id(), False))
+    emit(cl, "same-spelling-different-files")
+
     # G. path identity: detours, symlinked file, symlinked directory, other cwd
     for variant in range(8):
         cl = mk(4, [])
